@@ -497,6 +497,8 @@ def shape(fn, op_or_local, depth=7, _seen=None):
                 return "fn:" + short_name(op["fn"]["def"])
             if op.get("closure"):
                 return "closure"
+            if op.get("static"):
+                return "static:" + op["static"].split("::")[-1]
             if op.get("item") and "promoted" not in op:
                 return "const:" + op["item"].split("::")[-1]
             if "promoted" in op:
@@ -674,3 +676,62 @@ def shape_in(fn, local, blocks, depth=7):
                 alts.append("%s(%s)" % (short_name(names[-1] if names else "indirect"), ", ".join(shape(fn, a, depth - 1) for a in n["args"])))
     alts = sorted(set(alts))
     return alts
+
+
+def str_match_table(fn):
+    """Lowered `match s { "A" => x, ... _ => d }`: [(literal, [result shapes of that arm])] and the
+    shapes of the default arm. Arms are the blocks dominated by the true edge of each
+    `<str as PartialEq>::eq(s, literal)`."""
+    rows = []
+    false_chain = None
+    last_false = None
+    for bb, t in fn.calls():
+        if not call_name(t).endswith("<impl core::cmp::PartialEq for str>::eq"):
+            continue
+        lits = [a.get("str") for a in t["args"] if a.get("k") == "const" and a.get("str") is not None]
+        if len(lits) != 1 or t["t"] is None:
+            continue
+        sw = fn.blocks[t["t"]]["term"]
+        if sw["k"] != "switch":
+            continue
+        tg = dict(sw["targets"])
+        true_bb = sw["otherwise"] if 0 in tg else tg.get(1)
+        false_bb = tg.get(0) if 0 in tg else sw["otherwise"]
+        region = [x for x, _ in fn.live_blocks() if fn.dominates(true_bb, x)]
+        rows.append((lits[0], shape_in(fn, 0, region), false_bb))
+    default = []
+    if rows:
+        # the default arm: blocks dominated by a false edge that contain no further comparison
+        falses = {r[2] for r in rows}
+        cmp_blocks = {bb for bb, t in fn.calls() if call_name(t).endswith("<impl core::cmp::PartialEq for str>::eq")}
+        for fb in falses:
+            if fb not in cmp_blocks:
+                region = [x for x, _ in fn.live_blocks() if fn.dominates(fb, x)]
+                default += shape_in(fn, 0, region)
+    return [(r[0], r[1]) for r in rows], default
+
+
+def rv_shape(fn, rv, depth=7):
+    k = rv["k"]
+    if k == "use":
+        return shape(fn, rv["op"], depth)
+    if k == "bin":
+        return "%s(%s, %s)" % (rv["op"].replace("WithOverflow", ""), shape(fn, rv["a"], depth), shape(fn, rv["b"], depth))
+    if k == "un":
+        return "%s(%s)" % (rv["op"], shape(fn, rv["a"], depth))
+    if k in ("ref", "rawptr"):
+        return _shape_place(fn, rv["pl"], depth, frozenset())
+    if k == "cast":
+        return "(%s as %s)" % (shape(fn, rv["op"], depth), rv["ty"])
+    if k == "agg":
+        return "%s(%s)" % (rv.get("variant") or rv.get("ak"), ", ".join(shape(fn, o, depth) for o in rv["ops"]))
+    return k
+
+
+def stores(fn):
+    """Writes through projections (field / deref / index stores): [(destination shape, value shape, stmt)]."""
+    res = []
+    for bb, s in fn.stmts():
+        if s["k"] == "assign" and s["dst"]["p"]:
+            res.append((_shape_place(fn, s["dst"], 6, frozenset()), rv_shape(fn, s["rv"]), s))
+    return res
